@@ -11,8 +11,109 @@ class AnalysisError(Exception):
     """An anchor could not be found / resolved: the analysis cannot decide (exit 2)."""
 
 
+PARAMS = os.path.join(os.path.dirname(os.path.abspath(__file__)), 'params.txt')
+_known_params = None
+
+
+def known_params():
+    """{qualified function name: set of parameter names} of the reference tree (sa/params.txt), or None when the file is missing."""
+    global _known_params
+    if _known_params is None:
+        if not os.path.exists(PARAMS):
+            return None
+        out = {}
+        with open(PARAMS) as f:
+            for l in f:
+                l = l.strip()
+                if not l or l.startswith('#') or '(' not in l:
+                    continue
+                name, rest = l.split('(', 1)
+                out[name] = {x.lstrip('*') for x in rest.rstrip(')').split(',') if x}
+        _known_params = out
+    return _known_params
+
+
+def call_usage(sources):
+    """Which keywords / how many positional arguments the calls written in the package pass, per simple callee name:
+    {name: {'kw': set, 'pos': max count, 'star': bool, 'value': bool (referenced other than as the function of a call)}}."""
+    use = {}
+
+    def slot(n):
+        return use.setdefault(n, {'kw': set(), 'pos': 0, 'star': False, 'value': False})
+    for src in sources:
+        try:
+            t = ast.parse(src)
+        except SyntaxError:
+            continue
+        funcs = set()
+        for n in ast.walk(t):
+            if isinstance(n, ast.Call):
+                f = n.func
+                nm = f.id if isinstance(f, ast.Name) else f.attr if isinstance(f, ast.Attribute) else None
+                if nm is None:
+                    continue
+                funcs.add(id(f))
+                u = slot(nm)
+                u['kw'] |= {k.arg for k in n.keywords if k.arg}
+                u['pos'] = max(u['pos'], len(n.args))
+                if any(k.arg is None for k in n.keywords) or any(isinstance(a, ast.Starred) for a in n.args):
+                    u['star'] = True
+        for n in ast.walk(t):
+            if isinstance(n, ast.Attribute) and isinstance(n.ctx, ast.Load) and id(n) not in funcs:
+                slot(n.attr)['value'] = True
+            elif isinstance(n, ast.Name) and isinstance(n.ctx, ast.Load) and id(n) not in funcs:
+                slot(n.id)['value'] = True
+    return use
+
+
+def fold_new_params(tree, modname, usage):
+    """A parameter that the reference tree does not have, with a constant default, that no call written in the package passes: the properties speak about
+    today's API, so the function is analysed for the default value - `p = <default>` is placed at the head of the body (constant propagation and folding then
+    remove what the option switches on). A changed default changes what is analysed; a parameter some call does pass is left alone."""
+    kp = known_params()
+    if kp is None or usage is None:
+        return 0
+    n_folded = 0
+
+    def handle(fn, qual, is_method):
+        nonlocal n_folded
+        if qual not in kp:
+            return
+        a = fn.args
+        pos = a.posonlyargs + a.args
+        with_default = list(zip(pos[len(pos) - len(a.defaults):], a.defaults)) + [(p_, d_) for p_, d_ in zip(a.kwonlyargs, a.kw_defaults) if d_ is not None]
+        u = usage.get(fn.name, {'kw': set(), 'pos': 0, 'star': False, 'value': False})
+        head = []
+        for p_, d_ in with_default:
+            if p_.arg in kp[qual] or not isinstance(d_, ast.Constant) or not isinstance(d_.value, (bool, int, float, str, type(None))):
+                continue
+            if u['star'] or p_.arg in u['kw']:
+                continue
+            if p_ in pos:
+                idx = pos.index(p_) - (1 if is_method else 0)
+                if u['pos'] > idx:
+                    continue
+            head.append(ast.Assign(targets=[ast.Name(id=p_.arg, ctx=ast.Store())], value=ast.Constant(value=d_.value), lineno=fn.lineno, col_offset=fn.col_offset))
+        if head:
+            body = fn.body
+            k = 1 if body and isinstance(body[0], ast.Expr) and isinstance(body[0].value, ast.Constant) and isinstance(body[0].value.value, str) else 0
+            fn.body = body[:k] + head + body[k:]
+            n_folded += len(head)
+    for n in tree.body:
+        if isinstance(n, ast.ClassDef):
+            for m in n.body:
+                if isinstance(m, ast.FunctionDef):
+                    static = any(isinstance(d, ast.Name) and d.id == 'staticmethod' for d in m.decorator_list)
+                    handle(m, '%s:%s.%s' % (modname, n.name, m.name), not static)
+        elif isinstance(n, ast.FunctionDef):
+            handle(n, '%s:%s' % (modname, n.name), False)
+    if n_folded:
+        ast.fix_missing_locations(tree)
+    return n_folded
+
+
 class Module:
-    def __init__(self, name, path, relpath, src):
+    def __init__(self, name, path, relpath, src, usage=None):
         self.name = name
         self.path = path
         self.relpath = relpath
@@ -23,6 +124,8 @@ class Module:
             raise AnalysisError('module %s does not parse: %s' % (relpath, e))
         from .inline import inline_new_helpers, known_functions
         self.folded = 0
+        if os.environ.get('VERIF_NO_NORMALIZE') != '1':
+            self.folded += fold_new_params(self.tree, name, usage)
         if os.environ.get('VERIF_NO_NORMALIZE') != '1':
             from .partial import partial_eval_module
             self.folded += partial_eval_module(self.tree)      # tables looked up, table loops unrolled: helpers become inlinable
@@ -66,6 +169,7 @@ class Tree:
         pkgdir = os.path.join(self.root, PKG)
         if not os.path.isdir(pkgdir):
             raise AnalysisError('package directory %s not found' % pkgdir)
+        found = []
         for dirpath, dirnames, filenames in sorted(os.walk(pkgdir)):
             dirnames.sort()
             for fn in sorted(filenames):
@@ -78,12 +182,12 @@ class Tree:
                 name = rel[:-3].replace(os.sep, '.')
                 if name.endswith('.__init__'):
                     name = name[:-len('.__init__')]
-                self.modules[name] = Module(name, path, rel, src)
-        for rel in self.overlay:
-            if rel.endswith('.py') and rel.startswith(PKG + '/') and \
-                    rel[:-3].replace('/', '.').replace('.__init__', '') not in self.modules:
-                name = rel[:-3].replace('/', '.')
-                self.modules[name] = Module(name, os.path.join(self.root, rel), rel, self.overlay[rel])
+                found.append((name, path, rel, src))
+        extra = [(rel[:-3].replace('/', '.'), os.path.join(self.root, rel), rel, self.overlay[rel]) for rel in self.overlay
+                 if rel.endswith('.py') and rel.startswith(PKG + '/') and rel[:-3].replace('/', '.').replace('.__init__', '') not in {f_[0] for f_ in found}]
+        usage = call_usage([f_[3] for f_ in found + extra])
+        for name, path, rel, src in found + extra:
+            self.modules[name] = Module(name, path, rel, src, usage)
         self.digest = h.hexdigest()[:16]
 
     def _read(self, rel, path):
